@@ -55,3 +55,46 @@ CHECKS = {
         "note": "Gurobi itself is not run; the property concerns the text",
     },
 }
+
+CHECKS.update({
+    "C03": {
+        "technique": "Hypothesis design-spec generator; projected model enumeration of build_cnf(block) with pycryptosat; unique-extension check by blocking the auxiliary part",
+        "text": ("Generated designs (basic/derived factors with within/transition/window derivations, weights, all constraint kinds, CrossBlock) are compiled "
+                 "with build_cnf; for up to 200 (thorough 1500) projected models of the trial-sequence variables the remaining variables of the formula must "
+                 "admit exactly one extension. Sampled designs; per design the checked models are spread over all enumerated ones."),
+        "note": "trusts pycryptosat; designs with a Window start earlier than the default are excluded (known finding F12); flat CrossBlock designs only in this revision",
+    },
+    "C07": {
+        "technique": "Hypothesis design-spec generator; differential exhaustion IterateSATGen (formula models + the real iterate loop) vs RandomGen, compared as sets of level-name sequences",
+        "text": ("For generated designs accepted by both strategies the complete set of sequences of the compiled formula (decoded like the samplers decode) and "
+                 "the complete set RandomGen returns when asked for more than exist are compared by level names; for small sets the real IterateSATGen loop is "
+                 "run as well. No reference model is involved. Sampled designs, exhaustive per design."),
+        "note": "designs bounded by trial count and number of sequences (larger ones are discarded as too-large and counted); known findings F09a, F09b, F12, F25 are excluded by shape",
+    },
+    "C08": {
+        "technique": "Hypothesis design-spec generator biased to geometric edges; exception bucketing by (type, innermost sweetpea frame); UniGen in a forked child to observe process exits",
+        "text": ("Every generated design the constructor accepts is synthesized with IterateSATGen, RandomGen, CMSGen and UniGen; any exception other than the external "
+                 "sampler's documented UnigenError, a non-list result or a vanished child process is a violation, bucketed by root cause. Sampled."),
+        "note": "SMGen is covered by C29; constructor rejections are outside the property; open findings F09a, F09b, F12 are excluded by shape and reported as KNOWN-FINDING",
+    },
+    "C14": {
+        "technique": "Hypothesis design-spec generator; bijection check of block.get_variable against the documented applicability rule; decode round-trip of generated one-hot assignments",
+        "text": ("For generated designs all applicable (trial, factor, level) triples (applicability from the documented start/stride rule) must map injectively onto "
+                 "1..variables_per_sample, support variables lie inside that range, and Gen.decode of six generated one-hot assignments per design returns exactly the "
+                 "chosen names with '' where a factor does not apply. Sampled."),
+        "note": "flat CrossBlock designs in this revision (sustained factors of Nest are not generated yet)",
+    },
+    "C20": {
+        "technique": "Hypothesis generator of blocks with arbitrary level-name values and of arbitrary well-formed experiments; round-trip through experiments_to_tuples/dicts and csv.reader",
+        "text": ("Blocks with text/integer level names (commas, quotes, line breaks), weights (hidden factors) and an optional derived factor; experiments either synthesized "
+                 "(RandomGen, IterateSATGen) or filled cell by cell. Tuples, dicts and the CSV files read back must reproduce every cell in design order; synthesized experiments "
+                 "must have exactly the declared factor names as keys. Sampled."),
+        "note": "CSV cells compared as str(value); the csv module's quoting is trusted",
+    },
+    "C21": {
+        "technique": "Hypothesis generator of experiments, factor selections and trial selections; stdout table parser; recount oracle",
+        "text": ("For generated experiments (1-3), factor selections (via block or factors=) and trial selections (None or distinct indices) the printed tables are parsed: one "
+                 "row per level combination, frequency equals an independent recount over the selected trials, proportion equals 100*frequency/selected within 1e-9. Sampled."),
+        "note": "names are tokens without blanks or '|' so that the table can be parsed unambiguously",
+    },
+})
